@@ -407,6 +407,7 @@ pub fn run_property(prop: &Prop, cfg: &RunCfg) -> i32 {
 
     // 1. regression inputs first (the seconds-long replay tier)
     let mut regress_run = 0u64;
+    let mut regress_failure: Option<PathBuf> = None;
     let rdir = cfg.verif_dir.join("regress").join(prop.id);
     if let Ok(rd) = std::fs::read_dir(&rdir) {
         let mut files: Vec<PathBuf> = rd.filter_map(|e| e.ok()).map(|e| e.path()).filter(|p| p.extension().map(|x| x == "bin").unwrap_or(false)).collect();
@@ -420,10 +421,12 @@ pub fn run_property(prop: &Prop, cfg: &RunCfg) -> i32 {
                 Err(p) => Outcome::Fail(Failure { sub: "harness".into(), key: format!("{}/uncaught-panic@{}", prop.id, panic_site(&p)), msg: p }),
             };
             if let Outcome::Fail(fl) = out {
+                // remembered; the generated search still runs so that the evidence says what was covered
                 println!("regression input {} fails: [{}] {}", f.display(), fl.key, fl.msg);
-                println!("VIOLATION property={} replay={}", prop.id, f.display());
-                write_evidence(prop, cfg, &WorkerStats::default(), regress_run, 1, t0, &BTreeMap::new());
-                return 1;
+                if regress_failure.is_none() {
+                    regress_failure = Some(f.clone());
+                }
+                continue;
             }
             for (k, _) in ctx.known_hits {
                 report_known(prop.id, &k, &known_all);
@@ -492,15 +495,25 @@ pub fn run_property(prop: &Prop, cfg: &RunCfg) -> i32 {
         }
     }
 
-    let mut printed: HashSet<String> = HashSet::new();
-    for k in merged.known_hits.keys() {
-        if printed.insert(k.clone()) {
-            report_known(prop.id, k, &known_all);
-        }
+    // one line per listed open finding of this property, with the number of times this run met it
+    for k in known_all.iter().filter(|k| k.property == prop.id && k.status == "open") {
+        let hits = merged.known_hits.get(&k.key).cloned().unwrap_or(0);
+        println!("KNOWN-FINDING: property={} {} [{}] ({})", prop.id, k.what, k.key, if hits > 0 { format!("met {} times in this run", hits) } else { "not met in this run".to_string() });
     }
 
-    let violations = if merged.failure.is_some() { 1 } else { 0 };
+    let violations = if merged.failure.is_some() || regress_failure.is_some() { 1 } else { 0 };
+    if merged.samples.is_empty() {
+        // a run that fails at once has no sampled case yet: show the failing one
+        if let Some((_, data)) = &merged.failure {
+            let (_, descr) = replay_case(prop, data, &known_open);
+            merged.samples.push(descr.unwrap_or_else(|| format!("choice sequence {}", hex::encode(data))));
+        }
+    }
     write_evidence(prop, cfg, &merged, regress_run, violations, t0, &extra_cov);
+    if let Some(f) = &regress_failure {
+        println!("VIOLATION property={} replay={}", prop.id, f.display());
+        return 1;
+    }
 
     if let Some((f, data)) = &merged.failure {
         let (_, descr) = replay_case(prop, data, &known_open);
